@@ -33,7 +33,7 @@ def run(ctx):
         dev, invs = job
         if dev == "KeyForms":
             return job, ctx.tlc("MC_Forest", cfg_text=keys, must_cover=["Next"], workers=2)
-        if dev == "Dev_KeyUnchecked":
+        if dev in ("Dev_KeyUnchecked", "Dev_IdUnchecked"):
             return job, ctx.tlc("MC_Forest", cfg_text=keys.replace(dev + " = FALSE", dev + " = TRUE"), expect_error=True, count=False, workers=2)
         if dev is None:
             return job, ctx.tlc("MC_Forest", "MC_Forest.cfg", must_cover=["Next"], workers=4)
@@ -44,7 +44,8 @@ def run(ctx):
         return job, ctx.tlc("MC_Forest", cfg_text=base.replace(dev + " = FALSE", dev + " = TRUE"), expect_error=True, count=False, workers=3)
     with concurrent.futures.ThreadPoolExecutor(max_workers=8) as ex:
         results = list(ex.map(mc, [(None, None), ("BottomUp", None), ("KeyForms", None)] + DEVS
-                              + [("Dev_UidSubtreeUnchecked", {"UidUnique", "Findable"}), ("Dev_KeyUnchecked", {"KeyIsId", "OnceEach", "Findable"})]))
+                              + [("Dev_UidSubtreeUnchecked", {"UidUnique", "Findable"}), ("Dev_KeyUnchecked", {"KeyIsId", "OnceEach", "Findable"}),
+                                 ("Dev_IdUnchecked", {"SiblingIds"})]))
     for (dev, invs), r in results:
         if dev in (None, "BottomUp", "KeyForms"):
             ctx.require_ok(r)
